@@ -7,6 +7,7 @@
 #include "collider.h"
 #undef private
 #include <sstream>
+#include <limits>
 #include "common.h"
 using namespace manifold;
 using hz::Rng;
@@ -77,6 +78,24 @@ static void runCase(const std::string& tag, Rng& r, const Case& cs, int mode, in
   hz::emit(tag, in.str(), out.str(), ok, propMsg);
 }
 
+// Query boxes with infinite coordinates (half-spaces, slabs, the padded boxes MinGap builds for an
+// infinite search length) are outside the Int-coordinate model; they are checked against the
+// brute-force closed-interval scan only.
+static void runUnbounded(const std::string& tag, Rng& r, const Case& cs) {
+  const int n = (int)cs.codes.size(); const double inf = std::numeric_limits<double>::infinity();
+  Vec<Box> vb(cs.bb); Vec<uint32_t> vm(cs.codes); Collider col(vb.cview(), vm.cview());
+  Vec<Box> qs; const int nq = 6;
+  for (int i = 0; i < nq; i++) { Box b; b.min = vec3(-inf); b.max = vec3(inf);
+    for (int k = 0; k < 3; k++) { int c = (int)r.below(4); double v = (double)r.below(20); if (c == 0) b.min[k] = v; else if (c == 1) b.max[k] = v; else if (c == 2) { b.min[k] = v; b.max[k] = v + r.below(5); } }
+    qs.push_back(b); }
+  std::vector<std::vector<int>> res(nq); auto rec = [&](int q, int l) { res[q].push_back(l); }; auto rc = MakeSimpleRecorder(rec);
+  col.Collisions<false, Box>(rc, qs.cview(), false);
+  bool ok = true; std::string msg;
+  for (int i = 0; i < nq; i++) { std::vector<int> br; for (int l = 0; l < n; l++) if (cs.bb[l].DoesOverlap(qs[i])) br.push_back(l); auto g = res[i]; std::sort(g.begin(), g.end());
+    if (g != br) { ok = false; msg = "unbounded query box " + std::to_string(i) + " reports " + std::to_string(g.size()) + " leaves, brute force finds " + std::to_string(br.size()); } }
+  hz::emit(tag, "", "", ok, msg);
+}
+
 int main(int argc, char** argv) {
   uint64_t seed = hz::envSeed(); Rng r(seed);
   int T = argc > 1 ? atoi(argv[1]) : 400;
@@ -92,6 +111,7 @@ int main(int argc, char** argv) {
     int R = 1 + (int)r.below(20);
     for (auto& b : cs.bb) { b = rbox(r, R); if (r.below(7) == 0) b = cs.bb[0]; }
     if (r.below(9) == 0) for (auto& b : cs.bb) b = cs.bb[0];          // degenerate: all boxes identical
+    if (t % 10 == 3 && n < 5000) runUnbounded("u" + std::to_string(t) + " unbounded n=" + std::to_string(n), r, cs);
     int mode = n > 5000 ? (int)r.below(3) : t % 6;
     runCase("c" + std::to_string(t) + " " + (mode == 0 ? "tree" : mode == 1 ? "boxes" : mode == 2 ? "query" : mode == 3 ? "pquery" : mode == 4 ? "tquery" : "uquery") + " n=" + std::to_string(n), r, cs, mode, R);
   }
